@@ -3,7 +3,8 @@
 
 `ServerBase.serveDNS / serveDNSMsg / serveDNSMsgInternal / acceptMsg`, the
 per-transport treatment of "nothing written", the DoQ framing and protocol
-check, and the DoH JSON front end.  Core Lean only.
+check, the DoH JSON front end, and the lifetime of the response object (when
+each transport reads it and when it goes back to the `Disposer`).  Core Lean only.
 
 What is a parameter (not modelled): `dns.Msg.Unpack` beyond the 12-byte header
 (the driver is told whether unpacking succeeded and what it produced), the
@@ -282,6 +283,97 @@ def serveJSON (j : JSONReq) (id : Nat) (o : Outcome) : Nat × List JSONView :=
   | some m =>
     let s := serveMsg .dohJSON m o true
     (s.status, s.msgs.map jsonView)
+
+/-! ## Response lifetime: when the response object goes back to the `Disposer`
+
+Production (`dnssvc`) sets `ConfigBase.Disposer` to the `dnsmsg.Cloner` whose
+pools also feed the responses of every other request that is being served at the
+same time (the cache middlewares answer with `cloner.Clone(cached)`).  A response
+object that is disposed of while a transport still has to normalise, pack or
+send it is therefore overwritten by a concurrent request's `Clone`, and the
+client receives a well-formed answer with that other request's id, question and
+records.  The model below records, per transport, the program order of "the
+transport reads the recorded response object" (`send`) and "the object is given
+to the Disposer" (`dispose`), and runs it against the worst concurrent
+schedule: a foreign `Clone` immediately after every `Dispose`. -/
+
+/-- The concrete `ResponseWriter` a transport hands to `serveDNSMsg`. -/
+inductive WriterKind | udpWriter | tcpWriter | nonWriter
+deriving DecidableEq, Repr
+
+def Transport.writerKind : Transport → WriterKind
+  | .udp => .udpWriter
+  | .tcp | .dot => .tcpWriter
+  | _ => .nonWriter
+
+/-- The `case` list of the type switch in `ServerBase.dispose`: the writer kinds
+whose response `serveDNSMsg` disposes of itself. -/
+def disposeKinds : List WriterKind := [.tcpWriter, .udpWriter]
+
+inductive LifeEv | send | dispose
+deriving DecidableEq, Repr
+
+/-- `ServerBase.dispose` at the end of `serveDNSMsg` (a nil response is not an object). -/
+def inServe (ks : List WriterKind) (t : Transport) (recorded : Bool) : List LifeEv :=
+  if recorded && ks.contains t.writerKind then [.dispose] else []
+
+/-- Program order of the events on the response object that the client finally
+gets.  `recorded` = `serveDNSMsg` recorded a response (`written`).  UDP/TCP/DoT
+normalise, pack and send inside the handler's `WriteMsg`, i.e. before
+`serveDNSMsg` disposes; DoH (`serveDoH` → `writeResponse`), DoQ
+(`serveQUICStream`) and DNSCrypt (`dnsCryptHandler.ServeDNS`) do so after
+`serveDNSMsg` returned; DoH and DoQ then dispose themselves (DoQ also of the
+SERVFAIL it synthesises), DNSCrypt never does. -/
+def lifeOf (ks : List WriterKind) (t : Transport) (recorded : Bool) : List LifeEv :=
+  match t with
+  | .udp | .tcp | .dot => if recorded then .send :: inServe ks t recorded else []
+  | .dohPost | .dohGet | .dohJSON => if recorded then inServe ks t recorded ++ [.send, .dispose] else []
+  | .doq => inServe ks t recorded ++ [.send, .dispose]
+  | .dnscryptUDP | .dnscryptTCP => inServe ks t recorded ++ [.send]
+
+/-- `content = none`: the object still holds what the pipeline produced;
+`some k`: it now belongs to the k-th concurrent request. -/
+structure LifeState where
+  content : Option Nat
+  disposes : Nat
+  sent : List (Option Nat)
+  /-- an object owned by a concurrent request was disposed of (double disposal) -/
+  clobbered : Bool
+deriving DecidableEq, Repr
+
+def lifeInit : LifeState := { content := none, disposes := 0, sent := [], clobbered := false }
+
+/-- Worst schedule: every `Dispose` is followed at once by a foreign `Clone`
+that takes the object out of the pool and overwrites it. -/
+def lifeStep (s : LifeState) : LifeEv → LifeState
+  | .send => { s with sent := s.sent ++ [s.content] }
+  | .dispose => { s with content := some s.disposes, disposes := s.disposes + 1,
+                         clobbered := s.clobbered || s.content.isSome }
+
+def runLife (evs : List LifeEv) : LifeState := evs.foldl lifeStep lifeInit
+
+def replaceLast (rs : List Resp) (x : Resp) : List Resp :=
+  match rs with
+  | [] => []
+  | _ => rs.dropLast ++ [x]
+
+/-- What the client observes when the Disposer's pools are shared with
+concurrent requests (`foreign k` is what the k-th of them puts into the object
+it takes from the pool), for a `dispose` switch `ks`. -/
+def serveMsgShared (ks : List WriterKind) (t : Transport) (m : Msg) (o : Outcome) (wok : Bool)
+    (foreign : Nat → Resp) : Sees :=
+  let s := serveMsg t m o wok
+  match (runLife (lifeOf ks t (!(serveCore m o).isEmpty))).sent.getLast? with
+  | some (some k) => { s with msgs := replaceLast s.msgs (foreign k) }
+  | _ => s
+
+/-- Number of (non-nil) `Dispose` calls one wire input causes. -/
+def disposeCount (ks : List WriterKind) (t : Transport) (unpacked : Option Msg) (o : Outcome) : Nat :=
+  match unpacked with
+  | none => 0
+  | some m =>
+    if t = .doq ∧ validQUICMsg m = false then 0
+    else (runLife (lifeOf ks t (!(serveCore m o).isEmpty))).disposes
 
 /-- The handler used by the correspondence harness: `SetReply(req)`, an rcode and
 `n` answer records. -/
